@@ -235,7 +235,35 @@ class _PrangeRewriter:
 
     def rewrite_function(self, fn):
         self.fn = fn
+        # names bound only on some paths (e.g. per-tracer parameters unpacked under
+        # ``if want_LRG:``) are *undefined values* in compiled code, not errors; model
+        # them as NaN poison so that a use which reaches an output is visible
+        params = {a.arg for a in fn.args.posonlyargs + fn.args.args + fn.args.kwonlyargs}
+        cond = set()
+
+        def collect(stmts, conditional):
+            for st in stmts:
+                if isinstance(st, ast.For) and _is_prange_call(st.iter):
+                    continue
+                if isinstance(st, (ast.FunctionDef, ast.ClassDef, ast.Lambda)):
+                    continue
+                if conditional:
+                    for n in ast.walk(st):
+                        if isinstance(n, (ast.For,)) and _is_prange_call(n.iter):
+                            break
+                    if isinstance(st, (ast.Assign, ast.AugAssign, ast.AnnAssign)):
+                        for tgt in (st.targets if isinstance(st, ast.Assign) else [st.target]):
+                            for n in ast.walk(tgt):
+                                if isinstance(n, ast.Name) and isinstance(n.ctx, ast.Store):
+                                    cond.add(n.id)
+                for field in ('body', 'orelse', 'finalbody'):
+                    b = getattr(st, field, None)
+                    if isinstance(b, list) and b and isinstance(b[0], ast.stmt):
+                        collect(b, True)
+        collect(fn.body, False)
+        undef = [ast.Assign(targets=[ast.Name(id=n, ctx=ast.Store())], value=_rt('UNDEF')) for n in sorted(cond - params)]
         fn.body = self._walk(fn.body)
+        self._undef = undef
         # track array arguments on entry
         pre = []
         for a in fn.args.posonlyargs + fn.args.args + fn.args.kwonlyargs:
@@ -252,7 +280,7 @@ class _PrangeRewriter:
         if body and isinstance(body[0], ast.Expr) and isinstance(getattr(body[0], 'value', None), ast.Constant) \
                 and isinstance(body[0].value.value, str):
             doc, body = [body[0]], body[1:]
-        fn.body = doc + pre + [enter, ast.Try(body=body, handlers=[], orelse=[], finalbody=[leave])]
+        fn.body = doc + pre + self._undef + [enter, ast.Try(body=body, handlers=[], orelse=[], finalbody=[leave])]
         return fn
 
     def _walk(self, body):
@@ -393,11 +421,22 @@ def transform(source, filename, modname, variant):
         idx = tree.body.index(orig)
         tree.body.insert(idx + 1, gen)
     # prange kernels
+    info['skipped'] = {}
     for name in sorted(prange_funcs):
         c, f = funcs[name]
         rw = _PrangeRewriter(g, modname)
-        rw.rewrite_function(f)
-        info['pranges'] += rw.k
+        import copy
+        backup = copy.deepcopy(f)
+        try:
+            rw.rewrite_function(f)
+            info['pranges'] += rw.k
+        except TransformError as e:
+            # construct outside the model (e.g. a scalar reduction): the function stays
+            # as written and its prange runs serially (simnumba.prange is range);
+            # recorded so that a check that depends on it can say so
+            idx = c.body.index(f)
+            c.body[idx] = backup
+            info['skipped'][name] = str(e)
     # methods/nested functions with prange that are not module/class level
     ast.fix_missing_locations(tree)
     return tree, info
@@ -467,6 +506,7 @@ class _Finder(importlib.abc.MetaPathFinder, importlib.abc.Loader):
 
 class _Runtime:
     """Facade bound to the name ``__sim_rt__`` in instrumented modules."""
+    UNDEF = float('nan')
     alloc_empty = staticmethod(rt.alloc_empty)
     alloc_empty_like = staticmethod(rt.alloc_empty_like)
     clock = staticmethod(rt.clock)
